@@ -543,6 +543,12 @@ package ctfe
 //@ at vf assert [leaf-inside-notafter-window] (o.notAfterStart == nil || instant(chain[0].NotAfter) >= instant(*o.notAfterStart)) && (o.notAfterLimit == nil || instant(chain[0].NotAfter) < instant(*o.notAfterLimit))
 //@ at vf assert [ca-only-filter] !(o.acceptOnlyCA && !chain[0].IsCA)
 //@ at vf assert [expiry-filters] !(o.rejectExpired && instant(now) > instant(chain[0].NotAfter)) && !(o.rejectUnexpired && !(instant(now) > instant(chain[0].NotAfter)))
+//@ loop 2 invariant forall j int :: 0 <= j && j <= rangeindex ==> has(badIDs, oidString(o.rejectExtIds[j]))
+//@ loop 3 invariant (forall j int :: 0 <= j && j < len(o.rejectExtIds) ==> has(badIDs, oidString(o.rejectExtIds[j]))) && (forall k int :: 0 <= k && k <= rangeindex ==> !has(badIDs, oidString(cert.Extensions[k].Id)))
+//@ at vf assert [no-forbidden-extension-on-the-leaf] forall k int :: forall j int :: 0 <= k && k < len(chain[0].Extensions) && 0 <= j && j < len(o.rejectExtIds) ==> oidString(chain[0].Extensions[k].Id) != oidString(o.rejectExtIds[j])
+//@ loop 4 invariant (forall j int :: 0 <= j && j <= rangeindex ==> has(acceptEKUs, o.extKeyUsages[j])) && (forall u int :: has(acceptEKUs, u) ==> (exists j int :: 0 <= j && j <= rangeindex && o.extKeyUsages[j] == u))
+//@ loop 5 invariant (forall u int :: has(acceptEKUs, u) ==> (exists j int :: 0 <= j && j < len(o.extKeyUsages) && o.extKeyUsages[j] == u)) && !good
+//@ at vf assert [leaf-carries-one-of-the-required-key-usages] len(o.extKeyUsages) > 0 ==> (exists k int :: 0 <= k && k < len(chain[0].ExtKeyUsage) && (exists j int :: 0 <= j && j < len(o.extKeyUsages) && o.extKeyUsages[j] == chain[0].ExtKeyUsage[k]))
 //@ at vf assert [verifies-the-submitted-leaf] vf.c == chain[0]
 //@ at vf assert [verify-options] vf.opts.DisableTimeChecks && vf.opts.DisableCriticalExtensionChecks && vf.opts.DisableEKUChecks && vf.opts.DisablePathLenChecks && vf.opts.DisableNameConstraintChecks && !vf.opts.DisableNameChecks
 //@ at ce assert [order-check-against-submitted-chain] ce.inChain == chain && len(chain) == len(rawChain)
